@@ -13,7 +13,7 @@ from ..world import World, inventory, read_through
 
 ID = "C01"
 LEVEL = "exploration"
-BUDGET = {"quick": {"n": 700, "wall_s": 400}, "thorough": {"n": 40000, "wall_s": 3300}}
+BUDGET = {"quick": {"n": 1000, "wall_s": 400}, "thorough": {"n": 40000, "wall_s": 3300}}
 RULE = ("per case: seeded group configuration (7 hash fns, device kind, pool spec, prefix/suffix sizes, knob "
         "overrides for buffer/prefix/suffix-threshold in ~70%, cache, transform in ~25%) x seeded world of near-"
         "duplicate families (single-byte flips at stage boundary offsets, hard links, symlinks with -S/-L) x fault "
